@@ -141,6 +141,7 @@ def resolution_problems(doc, pickles):
     """Every id a pickle mentions resolves to an AST node of the right kind (list of problems)."""
     out = []
     idx = index_doc(doc)
+    claimed = {}  # scenario id -> [(row position in document order, pickle index)]
     for pi, p in enumerate(pickles):
         where = "pickle[%d]" % pi
         refs = p.get("astNodeIds")
@@ -157,6 +158,16 @@ def resolution_problems(doc, pickles):
                 out.append(where + ".astNodeIds=%r: second id is not a body row of an examples table of that scenario" % (refs,))
             else:
                 row = refs[1]
+                order = list(ctx["rows"])  # body rows of this scenario's examples tables, in document order
+                pos = order.index(row)
+                for prev_pos, prev_pi in claimed.get(refs[0], []):
+                    if prev_pos == pos:
+                        out.append(where + ".astNodeIds=%r: example row %r is already the row of pickle[%d] (two pickles cannot be made from one row)" % (refs, row, prev_pi))
+                        break
+                    if prev_pos > pos:
+                        out.append(where + ".astNodeIds=%r: example row %r comes before the row of the earlier pickle[%d] in the document" % (refs, row, prev_pi))
+                        break
+                claimed.setdefault(refs[0], []).append((pos, pi))
         elif len(refs) != 1:
             out.append(where + ".astNodeIds=%r: scenario without examples must be referenced alone" % (refs,))
         for si, s in enumerate(p.get("steps", [])):
